@@ -1,1 +1,289 @@
+//! `body(Σ, L)`: every *valid* operator sequence of length <= L over a 34-token alphabet,
+//! placed as `f(i32,i32)->i32` in a fixed scaffold (DESIGN §3.2).
+//!
+//! Termination by construction: a branch whose target frame is a `loop` is only admitted as
+//! the fused, counter-guarded unit `LOOPBACK(d)`; calls go to non-recursive helpers.
 
+use crate::mb::*;
+use wmodel::{validate214, FeatureSet};
+
+#[derive(Clone, Copy, Debug, PartialEq, Eq)]
+pub enum Fk {
+    Func,
+    Block,
+    Loop,
+    If { result: bool, has_else: bool },
+}
+
+#[derive(Clone, Debug, PartialEq, Eq)]
+pub enum Tk {
+    Plain,
+    Open(Fk),
+    Else,
+    End,
+    /// branch with the listed relative depths (none may be a loop)
+    Br(Vec<u32>),
+    /// the fused counter-guarded back edge to depth d (target must be a loop)
+    LoopBack(u32),
+}
+
+#[derive(Clone, Debug)]
+pub struct Tok {
+    pub name: &'static str,
+    pub bytes: Vec<u8>,
+    pub kind: Tk,
+    /// unconditional control transfer (what follows in the same frame is dead)
+    pub transfer: bool,
+}
+
+pub const COUNTER_LOCAL: u32 = 5;
+pub const SUBJECT_BASE: u32 = 3;
+
+pub fn alphabet() -> Vec<Tok> {
+    let t = |name: &'static str, bytes: Vec<u8>| Tok { name, bytes, kind: Tk::Plain, transfer: false };
+    let loopback = |d: u32| -> Vec<u8> {
+        cat(&[&local_get(COUNTER_LOCAL), &i32_const(1), &[0x6a], &local_tee(COUNTER_LOCAL), &i32_const(3), &[0x49], &[0x0d], &uleb_v(d as u64)])
+    };
+    vec![
+        t("local.get 0", local_get(0)),
+        t("local.get 1", local_get(1)),
+        t("local.get 2", local_get(2)),
+        t("local.set 2", local_set(2)),
+        t("local.tee 2", local_tee(2)),
+        t("local.get 3", local_get(3)),
+        t("local.set 3", local_set(3)),
+        t("i32.const 7", i32_const(7)),
+        t("i64.const 9", i64_const(9)),
+        t("i32.add", vec![0x6a]),
+        t("i32.eqz", vec![0x45]),
+        t("drop", vec![DROP]),
+        t("select", vec![0x1b]),
+        t("nop", vec![NOP]),
+        Tok { name: "unreachable", bytes: vec![UNREACHABLE], kind: Tk::Plain, transfer: true },
+        Tok { name: "return", bytes: vec![RETURN], kind: Tk::Plain, transfer: true },
+        Tok { name: "block", bytes: vec![0x02, 0x40], kind: Tk::Open(Fk::Block), transfer: false },
+        Tok { name: "block (result i32)", bytes: vec![0x02, 0x7f], kind: Tk::Open(Fk::Block), transfer: false },
+        Tok { name: "block (type 0)", bytes: vec![0x02, 0x00], kind: Tk::Open(Fk::Block), transfer: false },
+        Tok { name: "loop", bytes: vec![0x03, 0x40], kind: Tk::Open(Fk::Loop), transfer: false },
+        Tok { name: "if", bytes: vec![0x04, 0x40], kind: Tk::Open(Fk::If { result: false, has_else: false }), transfer: false },
+        Tok { name: "if (result i32)", bytes: vec![0x04, 0x7f], kind: Tk::Open(Fk::If { result: true, has_else: false }), transfer: false },
+        Tok { name: "else", bytes: vec![0x05], kind: Tk::Else, transfer: false },
+        Tok { name: "end", bytes: vec![END], kind: Tk::End, transfer: false },
+        Tok { name: "br 0", bytes: vec![0x0c, 0], kind: Tk::Br(vec![0]), transfer: true },
+        Tok { name: "br 1", bytes: vec![0x0c, 1], kind: Tk::Br(vec![1]), transfer: true },
+        Tok { name: "br_if 0", bytes: vec![0x0d, 0], kind: Tk::Br(vec![0]), transfer: false },
+        Tok { name: "br_if 1", bytes: vec![0x0d, 1], kind: Tk::Br(vec![1]), transfer: false },
+        Tok { name: "br_table 0 1 0", bytes: vec![0x0e, 2, 0, 1, 0], kind: Tk::Br(vec![0, 1]), transfer: true },
+        Tok { name: "loopback 0", bytes: loopback(0), kind: Tk::LoopBack(0), transfer: false },
+        Tok { name: "loopback 1", bytes: loopback(1), kind: Tk::LoopBack(1), transfer: false },
+        t("call helper", call(1)),
+        t("call log", call(0)),
+        t("call_indirect", vec![0x11, 0x00, 0x00]),
+        Tok { name: "return_call helper", bytes: vec![0x12, 0x01], kind: Tk::Plain, transfer: true },
+        t("global.get 0", global_get(0)),
+        t("global.set 0", global_set(0)),
+        t("i32.load", vec![0x28, 0x02, 0x00]),
+        t("i32.store", vec![0x36, 0x02, 0x04]),
+        t("memory.grow", vec![0x40, 0x00]),
+    ]
+}
+
+/// The scaffold with the given subject bodies (each: instruction bytes incl. final `end`).
+/// Subject k is function SUBJECT_BASE + k, exported as "s<k>".
+pub fn scaffold(bodies: &[Vec<u8>]) -> Vec<u8> {
+    let mut mb = MB::default();
+    let t0 = mb.ty(&[I32], &[I32]);
+    let t1 = mb.ty(&[I32, I32], &[I32]);
+    mb.imports.push(("env".into(), "log".into(), Desc::Func(t0)));
+    mb.mems.push(Lim::new(1, Some(2)));
+    mb.tables.push((FUNCREF, Lim::new(4, None)));
+    mb.globals.push((I32, true, expr(i32_const(5))));
+    // helper: x+1 ; helper2: log(x)
+    mb.func(t0, vec![], cat(&[&local_get(0), &i32_const(1), &[0x6a], &[END]]));
+    mb.func(t0, vec![], cat(&[&local_get(0), &call(0), &[END]]));
+    mb.export("mem", 2, 0);
+    mb.export("tab", 1, 0);
+    mb.export("g", 3, 0);
+    mb.elems.push(elem_seg(0, 0, &i32_const(0), &[1, 2, 0], &[], FUNCREF));
+    mb.datas.push(data_seg(0, 0, &i32_const(0), &[1, 2, 3, 4, 5, 6, 7, 8]));
+    for (k, b) in bodies.iter().enumerate() {
+        let f = mb.func(t1, vec![(1, I32), (1, I64), (1, I32), (1, I32)], b.clone());
+        mb.export(&format!("s{}", k), 0, f);
+    }
+    mb.build()
+}
+
+pub fn body_bytes(alpha: &[Tok], seq: &[u8]) -> Vec<u8> {
+    let mut b = vec![];
+    for t in seq {
+        b.extend_from_slice(&alpha[*t as usize].bytes);
+    }
+    b.push(END);
+    b
+}
+
+pub fn show(alpha: &[Tok], seq: &[u8]) -> String {
+    seq.iter().map(|t| alpha[*t as usize].name).collect::<Vec<_>>().join("; ")
+}
+
+fn completion(frames: &[Fk]) -> Vec<u8> {
+    // make the stack polymorphic, then close every open frame
+    let mut s = vec![UNREACHABLE];
+    for f in frames.iter().rev() {
+        match f {
+            Fk::Func => {}
+            Fk::If { result: true, has_else: false } => {
+                s.push(0x05);
+                s.push(UNREACHABLE);
+                s.push(END);
+                s.push(UNREACHABLE);
+            }
+            _ => {
+                s.push(END);
+                s.push(UNREACHABLE);
+            }
+        }
+    }
+    s.push(END);
+    s
+}
+
+/// is this member one that exercises a construct walrus treats specially?
+pub fn nontrivial(alpha: &[Tok], seq: &[u8]) -> bool {
+    let mut open_ifs: Vec<(bool, bool)> = vec![];
+    for (i, t) in seq.iter().enumerate() {
+        let tok = &alpha[*t as usize];
+        if tok.name == "nop" || tok.name == "block (type 0)" {
+            return true;
+        }
+        if tok.transfer && i + 1 < seq.len() {
+            let nx = &alpha[seq[i + 1] as usize];
+            if nx.kind != Tk::End && nx.kind != Tk::Else {
+                return true;
+            }
+        }
+        match &tok.kind {
+            Tk::Open(Fk::If { .. }) => open_ifs.push((true, false)),
+            Tk::Open(_) => open_ifs.push((false, false)),
+            Tk::Else => {
+                if let Some(l) = open_ifs.last_mut() {
+                    l.1 = true;
+                }
+            }
+            Tk::End => {
+                if let Some((true, false)) = open_ifs.pop() {
+                    return true;
+                }
+            }
+            _ => {}
+        }
+    }
+    false
+}
+
+struct Dfs<'a> {
+    alpha: &'a [Tok],
+    max_len: usize,
+    out: Vec<Vec<u8>>,
+    validations: u64,
+}
+
+impl<'a> Dfs<'a> {
+    fn valid(&mut self, code: Vec<u8>) -> bool {
+        self.validations += 1;
+        validate214(&scaffold(&[code]), FeatureSet::DEFAULT).is_ok()
+    }
+    fn go(&mut self, seq: &mut Vec<u8>, bytes: &mut Vec<u8>, frames: &mut Vec<Fk>) {
+        // member?
+        if frames.len() == 1 && !seq.is_empty() {
+            let mut code = bytes.clone();
+            code.push(END);
+            if self.valid(code) {
+                self.out.push(seq.clone());
+            }
+        }
+        if seq.len() == self.max_len {
+            return;
+        }
+        for (ti, tok) in self.alpha.iter().enumerate() {
+            // frame bookkeeping and the loop-branch restriction
+            let mut nf = frames.clone();
+            match &tok.kind {
+                Tk::Plain => {}
+                Tk::Open(k) => nf.push(*k),
+                Tk::Else => match nf.last_mut() {
+                    Some(Fk::If { has_else, .. }) if !*has_else => *has_else = true,
+                    _ => continue,
+                },
+                Tk::End => {
+                    if nf.len() <= 1 {
+                        continue;
+                    }
+                    nf.pop();
+                }
+                Tk::Br(ds) => {
+                    let mut ok = true;
+                    for d in ds {
+                        let d = *d as usize;
+                        if d >= nf.len() || nf[nf.len() - 1 - d] == Fk::Loop {
+                            ok = false;
+                        }
+                    }
+                    if !ok {
+                        continue;
+                    }
+                }
+                Tk::LoopBack(d) => {
+                    let d = *d as usize;
+                    if d >= nf.len() || nf[nf.len() - 1 - d] != Fk::Loop {
+                        continue;
+                    }
+                }
+            }
+            let keep = bytes.len();
+            bytes.extend_from_slice(&tok.bytes);
+            seq.push(ti as u8);
+            // can the remaining budget still close all frames?
+            let need = nf.len() - 1;
+            if seq.len() + need <= self.max_len {
+                let mut probe = bytes.clone();
+                probe.extend_from_slice(&completion(&nf));
+                if self.valid(probe) {
+                    self.go(seq, bytes, &mut nf);
+                }
+            }
+            seq.pop();
+            bytes.truncate(keep);
+        }
+    }
+}
+
+/// All members with length <= max_len whose first token is `first` (None = all first tokens).
+/// Returns (token sequences, validator calls made).
+pub fn enumerate(alpha: &[Tok], max_len: usize, first: Option<usize>) -> (Vec<Vec<u8>>, u64) {
+    let mut d = Dfs { alpha, max_len, out: vec![], validations: 0 };
+    let mut frames = vec![Fk::Func];
+    match first {
+        None => d.go(&mut vec![], &mut vec![], &mut frames),
+        Some(f) => {
+            // restrict the first level
+            let tok = &alpha[f];
+            let mut nf = frames.clone();
+            match &tok.kind {
+                Tk::Plain => {}
+                Tk::Open(k) => nf.push(*k),
+                _ => return (vec![], 0),
+            }
+            let mut bytes = tok.bytes.clone();
+            let mut seq = vec![f as u8];
+            if seq.len() + nf.len() - 1 <= max_len {
+                let mut probe = bytes.clone();
+                probe.extend_from_slice(&completion(&nf));
+                if d.valid(probe) {
+                    d.go(&mut seq, &mut bytes, &mut nf);
+                }
+            }
+        }
+    }
+    (d.out, d.validations)
+}
